@@ -45,7 +45,6 @@ UNIT = Unit(
     items=ur.COMMON + uev.SYMS + [
         Type(FX, "struct", "EvalFunctionQuery", slot="expr"), Type(FX, "struct", "EvalFunctionQueryArgument", slot="expr"),
         Type(FD, "struct", "Function", slot="asm"), Type(FD, "struct", "FunctionParameter", slot="asm"),
-        us.get.as_stub("util"),
         ensure_arg_number, eval_stub, eval_fn,
     ],
     serves=["C17", "C19", "C03"],
